@@ -16,6 +16,11 @@ CHECKS = {
          "Every room history up to the depth bound is built with real room mutations and observed through nine construction paths on real instances: the live room (RoomModified event), incremental import, fresh import of the whole history, import over an earlier version, re-import, storage reload (the real LOAD_ROOMS query + load_json) on each of them, and a real restart of every instance; each path's decision matrix (admin, member, user admin, own/all right per entity at every event date +-1 ms) must equal the oracle's, and every construction step must succeed.",
          "Trusts the rights oracle; reload is composed by the harness from the real query path and load_json exactly as start-up does and validated by a real restart per chunk of 16 histories. Bounded: one varying key, one varying entity, 3 templates, depth 2-3 (quick) / 3-4 (thorough).",
          "DESIGN.md section 5 C10"),
+ "C07": ("model_checking",
+         "bounded-exhaustive enumeration of single attack transformations of honest room exports against the real import path, decisions vs the rights oracle",
+         "For 3 scenarios x victim {holds an earlier definition, never saw the room} x attacker {member, outsider}, every single transformation of the honest export of a richer definition (omission, duplication, re-ordering, attacker-signed entries in every list at three dates, replay of validly signed entries across lists, groups and rooms, re-labelling, re-signing, grafted groups, attacker-authored definition rows) is delivered through the real signature check and add_room_node; after acceptance no stored entry may be removed or altered and the decision matrix of the resulting room must equal the oracle's for the old entries plus the legitimately added ones; after refusal nothing may change. Honest exports are also delivered in 12 orders/multiplicities and must converge.",
+         "Member and outsider attackers are never entitled, so nothing they sign is legitimate. Single transformations only (pairs are not enumerated); omissions towards a victim that never saw the room are not judged. Trusts the rights oracle and the RoomModified event as the view of the resulting room.",
+         "DESIGN.md section 5 C07"),
 }
 
 NOT_YET = {
